@@ -426,12 +426,12 @@ struct Fault { int fn = 0, k = 0, err = 0; };
 struct PCmd { int cmd = 0, ch = 0, outside = 0, flags = 0, fflags = 0, arg = 0; };
 struct ProcCase {
   int nch = 1;
-  int code[3] = {0, 0, 0}, by_signal[3] = {0, 0, 0};
+  int code[3] = {0, 0, 0}, by_signal[3] = {0, 0, 0}, not_child[3] = {0, 0, 0};
   std::vector<PCmd> cmds;
   std::vector<Fault> faults;
   std::string ser() const {
     Writer w;
-    w.i("nch", nch).iv("code", {code[0], code[1], code[2]}).iv("by_signal", {by_signal[0], by_signal[1], by_signal[2]}).i("ncmds", (long long)cmds.size());
+    w.i("nch", nch).iv("code", {code[0], code[1], code[2]}).iv("by_signal", {by_signal[0], by_signal[1], by_signal[2]}).iv("not_child", {not_child[0], not_child[1], not_child[2]}).i("ncmds", (long long)cmds.size());
     for (size_t i = 0; i < cmds.size(); i++) w.iv(("c" + std::to_string(i)).c_str(), {cmds[i].cmd, cmds[i].ch, cmds[i].outside, cmds[i].flags, cmds[i].fflags, cmds[i].arg});
     std::vector<long long> f;
     for (auto &x : faults) { f.push_back(x.fn); f.push_back(x.k); f.push_back(x.err); }
@@ -442,9 +442,9 @@ struct ProcCase {
     Reader r(t);
     ProcCase c;
     c.nch = (int)r.i("nch", 1);
-    auto k = r.iv("code"), b = r.iv("by_signal");
-    k.resize(3, 0); b.resize(3, 0);
-    for (int i = 0; i < 3; i++) { c.code[i] = (int)k[i]; c.by_signal[i] = (int)b[i]; }
+    auto k = r.iv("code"), b = r.iv("by_signal"), nc = r.iv("not_child");
+    k.resize(3, 0); b.resize(3, 0); nc.resize(3, 0);
+    for (int i = 0; i < 3; i++) { c.code[i] = (int)k[i]; c.by_signal[i] = (int)b[i]; c.not_child[i] = (int)nc[i]; }
     int n = (int)r.i("ncmds");
     for (int i = 0; i < n; i++) {
       auto v = r.iv(("c" + std::to_string(i)).c_str());
@@ -469,14 +469,15 @@ static Verdict run_proc(const ProcCase &c) {
   memset(&k, 0, sizeof k);
   int nch = std::max(1, std::min(c.nch, (int)C06C_MAX_CH));
   k.nch = (uint8_t)nch;
-  for (int i = 0; i < C06C_MAX_CH; i++) { k.exit_code[i] = (uint8_t)c.code[i]; k.by_signal[i] = (uint8_t)(c.by_signal[i] != 0); }
+  for (int i = 0; i < C06C_MAX_CH; i++) { k.exit_code[i] = (uint8_t)c.code[i]; k.by_signal[i] = (uint8_t)(c.by_signal[i] != 0); k.not_child[i] = (uint8_t)(c.not_child[i] != 0); }
   k.ncmds = (uint8_t)std::min<size_t>(c.cmds.size(), C06C_MAX_CMDS);
   k.plans.nfaults = (uint32_t)std::min<size_t>(c.faults.size(), TP_FAULT_MAX);
   for (uint32_t i = 0; i < k.plans.nfaults; i++) { k.plans.faults[i].fn = (uint8_t)c.faults[i].fn; k.plans.faults[i].k = (uint32_t)c.faults[i].k; k.plans.faults[i].err = c.faults[i].err; }
   // model: what every step must return and whether the channel's callback is due
   struct M { bool tpt_set = false, reg = false, dead = false, reaped = false; } m[C06C_MAX_CH];
   enum RcClass { RC_NA, RC_OK, RC_EXACT, RC_NONZERO };
-  struct Exp { RcClass cls = RC_NA; int rc = 0; int fires = 0; bool strong = false; const char *why = ""; };
+  enum { RC_OPEN = 100 };  // already dead process that is not our child: 0 (then exactly one report) or ESRCH (somebody reaped it)
+  struct Exp { int cls = RC_NA; int rc = 0; int fires = 0; bool strong = false; const char *why = ""; };
   std::vector<Exp> ex(k.ncmds);
   int epoll_calls = 0, opens = 0;
   for (int i = 0; i < k.ncmds; i++) {
@@ -494,6 +495,7 @@ static Verdict run_proc(const ProcCase &c) {
       if (bad) { e.cls = RC_NONZERO; e.why = "malformed registration"; break; }
       if (m[ch].reg) { e.cls = RC_EXACT; e.rc = EEXIST; e.why = "already registered"; break; }
       if (m[ch].reaped) { e.cls = RC_EXACT; e.rc = ESRCH; e.why = "the process is gone and reaped"; break; }
+      if (c.not_child[ch] && m[ch].dead) { e.cls = RC_OPEN; break; }
       opens++;
       epoll_calls++;
       {
@@ -514,12 +516,12 @@ static Verdict run_proc(const ProcCase &c) {
     case P_EXIT:
       if (!m[ch].dead) {
         m[ch].dead = true;
-        if (m[ch].reg) { e.fires = 1; m[ch].reg = false; m[ch].reaped = true; }
+        if (m[ch].reg) { e.fires = 1; m[ch].reg = false; m[ch].reaped = !c.not_child[ch]; /* the pool thread can only reap its own children */ }
       }
       break;
     default: break;
     }
-    k.cmds[i].await = (uint8_t)(e.fires > 0);
+    k.cmds[i].await = (uint8_t)(e.cls == RC_OPEN ? 2 : (e.fires > 0));
   }
   Verdict v = Verdict::pass();
   for (int attempt = 0; attempt < 3; attempt++) {
@@ -539,17 +541,22 @@ static Verdict run_proc(const ProcCase &c) {
     }
     if (o.hang) { v = Verdict::fail("hang: the owning thread stopped serving its queue"); label("hang_rerun"); continue; }
     uint32_t prev[C06C_MAX_CH] = {0, 0, 0};
-    int nreg = 0, fired_total = 0;
+    int nreg = 0, fired_total = 0, opens_dyn = 0;
     bool nt = false;
     for (int i = 0; i < k.ncmds; i++) {
       const PCmd &cm = c.cmds[i];
       int ch = cm.ch % C06C_MAX_CH;
       if (ch >= nch) continue;
       const c06c_step &s = o.s[i];
-      const Exp &e = ex[i];
       std::ostringstream tg;
       tg << "step " << i << " (" << pcmdname(cm.cmd) << " ch " << ch << " flags " << cm.flags << " fflags " << cm.fflags << (cm.outside ? " outside" : " in-thread") << ")";
       std::string tag = tg.str();
+      Exp e_dyn = ex[i];
+      if (e_dyn.cls == RC_OPEN) {
+        PBT_REQUIRE(s.rc == 0 || s.rc == ESRCH, tag << ": returned " << s.rc << " for a process that has exited and is not our child (0 or ESRCH expected)");
+        if (s.rc == 0) { e_dyn.fires = 1; opens_dyn++; nreg++; label("proc_not_child_reported_after_exit"); }
+      }
+      const Exp &e = e_dyn;
       switch (e.cls) {
       case RC_OK: PBT_REQUIRE(s.rc == 0, tag << ": returned " << s.rc << ", expected success"); break;
       case RC_EXACT: PBT_REQUIRE(s.rc == e.rc, tag << ": returned " << s.rc << ", expected " << e.rc << " (" << e.why << ")"); break;
@@ -575,11 +582,12 @@ static Verdict run_proc(const ProcCase &c) {
       PBT_REQUIRE(o.last_event[j] == EV_PROC, "process " << j << ": callback carried event kind " << o.last_event[j]);
       PBT_REQUIRE(o.last_fflags[j] == 1u, "process " << j << ": callback filter flags " << o.last_fflags[j] << ", expected TP_FF_P_EXIT");
       int st = (int)o.last_data[j];
+      if (c.not_child[j]) { label("proc_not_child_exit_reported"); continue; }  // the status of a process that is not our child is not available to the pool thread
       if (c.by_signal[j]) PBT_REQUIRE(WIFSIGNALED(st) && WTERMSIG(st) == SIGKILL, "process " << j << " was killed by SIGKILL, callback data (wait status) is " << st);
       else PBT_REQUIRE(WIFEXITED(st) && WEXITSTATUS(st) == (c.code[j] & 0xff), "process " << j << " exited with " << (c.code[j] & 0xff) << ", callback data (wait status) is " << st);
       label(c.by_signal[j] ? "proc_killed_reported" : "proc_exit_reported");
     }
-    PBT_REQUIRE(o.pidfd_opens == (uint32_t)opens, "process descriptors opened: " << o.pidfd_opens << ", the history needs " << opens);
+    PBT_REQUIRE(o.pidfd_opens == (uint32_t)(opens + opens_dyn), "process descriptors opened: " << o.pidfd_opens << ", the history needs " << opens + opens_dyn);
     PBT_REQUIRE(o.res.live_fds == o.pre_live_fds, "descriptors left after deleting every registration and destroying the pool: " << o.res.live_fds << " (before: " << o.pre_live_fds << ")");
     if (fired_total) nt = true;
     if (nt) nontrivial_cur();
@@ -592,7 +600,11 @@ static rc::Gen<ProcCase> genProc() {
   return rc::gen::exec([]() {
     ProcCase c;
     c.nch = *rc::gen::weightedElement<int>({{3, 1}, {2, 2}, {1, 3}});
-    for (int i = 0; i < 3; i++) { c.code[i] = *rc::gen::element(0, 1, 7, 42, 255); c.by_signal[i] = *rc::gen::weightedElement<int>({{4, 0}, {1, 1}}); }
+    for (int i = 0; i < 3; i++) {
+      c.code[i] = *rc::gen::element(0, 1, 7, 42, 255);
+      c.by_signal[i] = *rc::gen::weightedElement<int>({{4, 0}, {1, 1}});
+      c.not_child[i] = *rc::gen::weightedElement<int>({{3, 0}, {1, 1}});  // a grandchild re-parented away: pidfd_open accepts any visible process
+    }
     int n = *range<int>(2, 9);
     for (int i = 0; i < n; i++) {
       PCmd cm;
@@ -604,7 +616,9 @@ static rc::Gen<ProcCase> genProc() {
       cm.arg = *range<int>(1, 10);
       c.cmds.push_back(cm);
     }
-    if (*range<int>(0, 7) == 0) c.faults.push_back(Fault{F_EPOLL_CTL, *range<int>(1, 3), *rc::gen::element<int>(ENOMEM, ENOSPC)});
+    bool any_not_child = false;
+    for (int i = 0; i < c.nch; i++) any_not_child |= c.not_child[i] != 0;
+    if (!any_not_child && *range<int>(0, 7) == 0) c.faults.push_back(Fault{F_EPOLL_CTL, *range<int>(1, 3), *rc::gen::element<int>(ENOMEM, ENOSPC)});
     return c;
   });
 }
